@@ -16,6 +16,8 @@ type Event struct {
 	B    int    `json:"b,omitempty"`
 	S    string `json:"s,omitempty"`
 	User bool   `json:"u,omitempty"`
+	// Fault marks a non-default environment answer (failed write, crash point); bounded separately (deviations).
+	Fault bool `json:"f,omitempty"`
 }
 
 func (e Event) String() string {
@@ -42,6 +44,7 @@ type BFS struct {
 	New     func() System
 	Roots   [][]Event // initial histories (work items); nil = the empty history
 	MaxUser int       // bound on user events per history
+	MaxFault int      // bound on fault events (deviations) per history
 	Horizon int       // bound on total events per history (reported when hit)
 	// Before is called on the live pre-state right before ev is applied; its result is handed to After.
 	Before func(sys System, ev Event) interface{}
@@ -58,6 +61,16 @@ func userCount(h []Event) int {
 	n := 0
 	for _, e := range h {
 		if e.User {
+			n++
+		}
+	}
+	return n
+}
+
+func faultCount(h []Event) int {
+	n := 0
+	for _, e := range h {
+		if e.Fault {
 			n++
 		}
 	}
@@ -102,8 +115,12 @@ func (b *BFS) Run() bool {
 			sys := b.build(h)
 			evs := sys.Enabled()
 			uc := userCount(h)
+			fc := faultCount(h)
 			for i, ev := range evs {
 				if ev.User && uc >= b.MaxUser {
+					continue
+				}
+				if ev.Fault && fc >= b.MaxFault {
 					continue
 				}
 				if len(h) >= b.Horizon {
